@@ -29,7 +29,7 @@ func TestC07(t *testing.T) {
 			continue
 		}
 		side := []string{"requestor", "responder"}[r.Intn(2)]
-		placement := []string{"global", "per-request", "both-global-smaller", "both-request-smaller"}[r.Intn(4)]
+		placement := []string{"global", "per-request", "both-global-smaller", "both-request-smaller", "both-equal"}[r.Intn(5)]
 		N := []int64{1, 2, need - 1, need, need + 1, 2 * need, 1 + r.Int63n(need+2)}[r.Intn(7)]
 		if N < 1 {
 			N = 1
@@ -45,6 +45,8 @@ func TestC07(t *testing.T) {
 			global, perReq = uint64(N), uint64(other)
 		case "both-request-smaller":
 			global, perReq = uint64(other), uint64(N)
+		case "both-equal":
+			global, perReq = uint64(N), uint64(N)
 		}
 		// every link must resolve on the enforcing side: responder holds everything;
 		// requestor-side enforcement uses any requestor split, responder-side uses an empty requestor
